@@ -197,8 +197,14 @@ def run_verus_unit_once(unit, work, seed, force, rlimit=None):
                 continue
             tool_errors.append("%s @ %s" % (msg, [(s['line_start']) for s in d['spans']][:2]))
             continue
-        prim = [s for s in d['spans'] if s['is_primary']]
-        sec = [s for s in d['spans'] if not s['is_primary']]
+        # spans that lie in the generated unit file (a span inside vstd, e.g. the ensures of std's From::from, has another file)
+        unit_file = os.path.basename(out_rs)
+        in_unit = lambda sp: os.path.basename(sp.get('file_name', unit_file)) == unit_file
+        prim = [s for s in d['spans'] if s['is_primary'] and in_unit(s)]
+        sec = [s for s in d['spans'] if not s['is_primary'] and in_unit(s)]
+        if not prim and sec:
+            # the failed clause belongs to a library trait (vstd): attribute it to the function whose body is the other span
+            prim, sec = [sec[0]], sec[1:]
 
         def info(span):
             idx = span['line_start'] - 1
